@@ -4,6 +4,8 @@ import PyYetiVerif.Props.C10Bins
 import PyYetiVerif.Props.C10Labels
 import PyYetiVerif.Props.C10Psd
 import PyYetiVerif.Props.C10Locate
+import PyYetiVerif.Props.C10Cell
+import PyYetiVerif.Props.C10Dups
 #print axioms PyYetiVerif.C10.seq_first_selected
 #print axioms PyYetiVerif.C10.seq_alternates
 #print axioms PyYetiVerif.C10.default_first_selected
@@ -65,3 +67,14 @@ import PyYetiVerif.Props.C10Locate
 #print axioms PyYetiVerif.C10.fixed_F4_example
 #print axioms PyYetiVerif.C10.fixed_F14_F22_F23_examples
 #print axioms PyYetiVerif.C10.var_test_is_documented_variance
+#print axioms PyYetiVerif.C10.binify_cell_sum
+#print axioms PyYetiVerif.C10.binify_cell_sum_unguarded
+#print axioms PyYetiVerif.C10.bins_disjoint
+#print axioms PyYetiVerif.C10.binify_explicit_is_guarded
+#print axioms PyYetiVerif.C10.binify_explicit_cell_sum
+#print axioms PyYetiVerif.C10.binify_auto_cell_sum
+#print axioms PyYetiVerif.C10.find_duplicates_eq_spec
+#print axioms PyYetiVerif.C10.find_duplicates_length
+#print axioms PyYetiVerif.C10.find_duplicates_neg_tol
+#print axioms PyYetiVerif.C10.find_duplicates_example
+#print axioms PyYetiVerif.C10.find_duplicates_iff
